@@ -875,12 +875,15 @@ func Run(c *vh.Ctx) {
 			Entries []mwEntry `json:"entries"`
 			Mws     []layer   `json:"mws"`
 			Handler []op      `json:"handler"`
+			Steps   []tstep   `json:"steps"`
 		}
 		if err := json.Unmarshal(c.ReplayRaw, &rc); err != nil {
 			c.Note("bad replay: %v", err)
 			return
 		}
-		if rc.Kind == "mw" {
+		if rc.Kind == "topo" {
+			runTopo(c, m, &topoCase{Steps: rc.Steps}, false)
+		} else if rc.Kind == "mw" {
 			runMw(c, m, rc.Entries)
 		} else if rc.Kind == "layers" {
 			runLayerStack(c, m, rc.Mws, [][]op{rc.Handler})
@@ -891,7 +894,7 @@ func Run(c *vh.Ctx) {
 		}
 		return
 	}
-	c.Res.Rule = "response: every sequence of operation kinds up to length L over the 11-kind alphabet (parameters drawn from small pools by the seeded PRNG; every status-carrying kind draws from body-allowing and no-body codes), plus seeded longer sequences; status-class stream: every sequence of 1..2 (thorough: 3) status-carrying operations over {status, writeHeader, redirect, noContent, html(b, code)} x one code per status class, followed by each body tail, and the same after a first write; layer-split stream: first operation in a middleware, the rest in the handler; layered stream: stacks of 0..2 (thorough: 3) closure / class middlewares over a route handler, every layer with an operation sequence before $next, calling $next or short-circuiting, and an operation sequence after it, judged by the commit-once reference read in execution order across the layers (the return of a layer with a status pending commits it); non-trivial = contains a committing operation and at least one status/header/cookie operation; distinct = distinct concrete op sequence. middleware: every priority stack up to length 5 over {-1,0,1,5} (+ omitted priority, short-circuit and class-based variants seeded); non-trivial = at least 2 entries"
+	c.Res.Rule = "response: every sequence of operation kinds up to length L over the 11-kind alphabet (parameters drawn from small pools by the seeded PRNG; every status-carrying kind draws from body-allowing and no-body codes), plus seeded longer sequences; status-class stream: every sequence of 1..2 (thorough: 3) status-carrying operations over {status, writeHeader, redirect, noContent, html(b, code)} x one code per status class, followed by each body tail, and the same after a first write; layer-split stream: first operation in a middleware, the rest in the handler; layered stream: stacks of 0..2 (thorough: 3) closure / class middlewares over a route handler, every layer with an operation sequence before $next, calling $next or short-circuiting, and an operation sequence after it, judged by the commit-once reference read in execution order across the layers (the return of a layer with a status pending commits it); non-trivial = contains a committing operation and at least one status/header/cookie operation; distinct = distinct concrete op sequence. middleware: every priority stack up to length 5 over {-1,0,1,5} (+ omitted priority, short-circuit and class-based variants seeded); non-trivial = at least 2 entries. topology: trees of server objects built with group() (one group, sibling groups, chains of depth 2), the root holding 0..9 middlewares when the first group is created, every sequence of up to 3 (thorough: 4) later single registrations over the objects, routes on every object before and after them; every object sweeping 0..9 own middlewares in the three block orders; seeded random programs; every route requested and judged by the list of its own server object at registration (inherited at group() + own), ascending priority, ties by registration; non-trivial = at least one group, one middleware and one route"
 	maxLen := c.N(4, 5)
 	var batch [][]op
 	flush := func() {
@@ -934,7 +937,7 @@ func Run(c *vh.Ctx) {
 	// layered stream (layers.go)
 	layerStream(c, m)
 	c.Res.Exhaustive = true
-	c.Res.ExhaustiveWhat = fmt.Sprintf("all operation-kind sequences of length <= %d over 11 kinds; all status-class sequences (choosers %d, depth %d) x body tails, before and after a first write; all (middleware operation, handler suffix) splits of the depth-2 status-class sequences; all layered requests of 0..%d middlewares (each: one of %d operation sequences before $next, calls $next or not, one of them after) over each of the route handlers, kinds (closure / class) and registration orders rotating; all middleware priority stacks of length <= 5 over {-1,0,1,5}", maxLen, len(choosers(c.Thorough())), c.N(2, 3), c.N(2, 3), len(layerSeqs(0, false)))
+	c.Res.ExhaustiveWhat = fmt.Sprintf("all operation-kind sequences of length <= %d over 11 kinds; all status-class sequences (choosers %d, depth %d) x body tails, before and after a first write; all (middleware operation, handler suffix) splits of the depth-2 status-class sequences; all layered requests of 0..%d middlewares (each: one of %d operation sequences before $next, calls $next or not, one of them after) over each of the route handlers, kinds (closure / class) and registration orders rotating; all middleware priority stacks of length <= 5 over {-1,0,1,5}; all server-object trees (5 creation shapes, thorough 10) x root stack size 0..9 x every sequence of <= 2..3 (thorough 4) later registrations", maxLen, len(choosers(c.Thorough())), c.N(2, 3), c.N(2, 3), len(layerSeqs(0, false)))
 	// seeded longer sequences
 	for i := 0; i < c.N(3000, 60000); i++ {
 		n := c.Rand.Range(maxLen+1, 12)
@@ -972,6 +975,8 @@ func Run(c *vh.Ctx) {
 		}
 		runMw(c, m, es)
 	}
+	// server-object topologies (topo.go)
+	topoStream(c, m)
 	if m != nil {
 		c.Res.ModelLines = m.Lines
 	}
